@@ -14,7 +14,10 @@ void GeneralSerialEvent::read(AbstractFile & is) {
     data.resize(dataLength);
     is.read(reinterpret_cast<char *>(data.data()), dataLength);
     timeStamps.resize(timeStampsLength / sizeof(int64_t));
-    is.read(reinterpret_cast<char *>(timeStamps.data()), timeStampsLength);
+    /* read only what the vector holds; a length that is not a multiple of 8 must not overrun it */
+    const std::streamsize timeStampsBytes = static_cast<std::streamsize>(timeStamps.size() * sizeof(int64_t));
+    is.read(reinterpret_cast<char *>(timeStamps.data()), timeStampsBytes);
+    is.seekg(static_cast<std::streamoff>(timeStampsLength) - timeStampsBytes, std::ios_base::cur);
     // @note might be extended in future versions
 }
 
